@@ -362,6 +362,21 @@ def check_process_parent(ctx, cls, lc, seen):
             ctx.check('R3', f'{gr.short}: the (False, None) fallback at line {n.line} is taken only after the result pipe has been read', ok, gr.short, 'fallback-without-reading-the-pipe',
                       f'{gr.short} falls back to (False, None) on a path that never looked into the result pipe: an outcome the child delivered before it died (e.g. it returned normally and '
                       'its interpreter exited non-zero, or a terminate landed in its clean-up) is discarded - has_error True, error None for work that finished', where=loc(gr, n.stmt))
+    # def-use: whatever a parent-side function reads from the outcome channel ahead of time must flow into the slot in _get_result
+    for c in lc.cls.mro():
+        if isinstance(c, str):
+            continue
+        for f in c.methods.values():
+            if f is gr or f.name in ('_start', '_run'):
+                continue
+            for st in walk_local(f.node):
+                if isinstance(st, ast.Assign) and len(st.targets) == 1 and is_self_attr(st.targets[0]) and isinstance(st.value, ast.Call) \
+                        and last_attr(st.value) in ('get', 'recv') and (receiver(st.value) or '') == f'self.{lc.outcome_channel}.parent_end':
+                    attr = st.targets[0].attr
+                    used = any(isinstance(a, ast.Attribute) and is_name(a.value, 'self') and a.attr == attr and isinstance(a.ctx, ast.Load) for a in ast.walk(gr.node))
+                    ctx.check('R3', f'{f.short}: the message read ahead of time into self.{attr} is used by {gr.short}', used, gr.short, f'early-read-not-used:{attr}',
+                              f'{f.short} reads the final message of the child into self.{attr}, but {gr.short} never looks at it: the delivered outcome is lost and the worker ends with the '
+                              '(False, None) fallback', where=loc(f, st))
     # RemoteServerProcess-like overrides of _start that store to the slot
     for c in ctx.prog.classes.values():
         if lc.cls in c.mro() or c is lc.cls:
